@@ -204,13 +204,16 @@ def _task(t):
     elif kind == "moddevs":
         _k, tkey, seed, lo, hi, k2 = t
         devs = deviate.module_devs(tkey, seed, spikes="all" if not k2 else "few", opt8="all" if not k2 else "few")
-        if k2:
+        if k2 == "reduced":
+            combos = [list(p) for p in list(deviate.pairs(deviate.reduced_devs(tkey, seed)))[lo:hi]]
+        elif k2:
             combos = [list(p) for p in list(deviate.pairs(devs, common_pairs=(tkey == 'Amplifier')))[lo:hi]]
         else:
             combos = ([[]] + [[d] for d in devs])[lo:hi]
         cases = []
         for c in combos:
-            cases.append({"kind": "module", "mods": [[tkey, c]]})
+            if k2 != "reduced":
+                cases.append({"kind": "module", "mods": [[tkey, c]]})
             cases.append({"kind": "synth", "type": tkey, "devs": c})
     for case in cases:
         try:
@@ -263,6 +266,10 @@ def run(ctx):
         n = len(deviate.module_devs(k, ctx.seed)) + 1
         for lo in range(0, n, 60):
             tasks.append(("moddevs", k, ctx.seed, lo, min(n, lo + 60), False))
+    for k in tk:
+        n = sum(1 for _ in deviate.pairs(deviate.reduced_devs(k, ctx.seed)))
+        for lo in range(0, n, 400):
+            tasks.append(("moddevs", k, ctx.seed, lo, min(n, lo + 400), "reduced"))
     if ctx.thorough:
         for k in tk:
             devs = deviate.module_devs(k, ctx.seed, spikes="few", opt8="few")
